@@ -445,7 +445,14 @@ func (x *Exec) mergeStates(sts []*State) *State {
 		for i := len(live) - 1; i >= 0; i-- {
 			cv, ok := live[i].cells[c]
 			if !ok {
-				continue
+				if !strings.HasPrefix(c.name, "last_") {
+					continue
+				}
+				// "result of the last call to f": unknown on a path without such a call
+				saved := x.vc.pcNow
+				x.vc.pcNow = live[i].pc
+				cv = x.freshVal(c.name, c.ty)
+				x.vc.pcNow = saved
 			}
 			if v == nil {
 				v = cv
